@@ -429,6 +429,13 @@ func (w *World) TakeCalls() []Call {
 	return c
 }
 
+// noSubscriber is the subscriber of the subscription a resolver hands out where none belongs.
+type noSubscriber struct{}
+
+func (noSubscriber) Send(value interface{}) error { return nil }
+func (noSubscriber) Match(eventID string) bool    { return false }
+func (noSubscriber) Unsubscribe()                 {}
+
 type keptArgs struct {
 	at  string
 	raw map[string]interface{}
@@ -620,6 +627,9 @@ func (w *World) resolveVia(via, id string, field *ggql.Field, args map[string]in
 		// and a line break in one of them, a small integer, a typed map): they are part of the response and must be JSON
 		return nil, &ggql.Error{Base: fmt.Errorf("%s", v.S), Extensions: map[string]interface{}{
 			"tags": []string{"plain", "qu\"ote\nline"}, "code": int8(3), "more": map[string]string{"k\"": "v\\"}}}
+	}
+	if v.K == "subval" { // a *ggql.Subscription handed out for a field of a query or a mutation
+		return ggql.NewSubscription(noSubscriber{}, field, args), nil
 	}
 	if v.K == "errval" { // a resolver returning a value together with an error
 		return v.S, fmt.Errorf("failed after producing %s", v.S)
